@@ -100,7 +100,9 @@ pub fn set_mathml(mathml_str: String) -> Result<String> {
         // if these are present when resent to MathJaX, MathJaX crashes (https://github.com/mathjax/MathJax/issues/2822)
         static ref MATHJAX_V2: Regex = Regex::new(r#"class *= *['"]MJX-.*?['"]"#).unwrap();
         static ref MATHJAX_V3: Regex = Regex::new(r#"class *= *['"]data-mjx-.*?['"]"#).unwrap();
-        static ref NAMESPACE_DECL: Regex = Regex::new(r#"xmlns:[[:alpha:]]+"#).unwrap();     // very limited namespace prefix match
+        // very limited namespace prefix match -- only the declaration of the MathML namespace becomes the default namespace
+        // (turning some other declaration such as xmlns:xlink into a second default namespace makes the parse fail)
+        static ref NAMESPACE_DECL: Regex = Regex::new(r#"xmlns:[[:alpha:]]+(\s*=\s*['"]http://www\.w3\.org/1998/Math/MathML['"])"#).unwrap();
         static ref PREFIX: Regex = Regex::new(r#"(</?)[[:alpha:]]+:"#).unwrap();     // very limited namespace prefix match
         static ref HTML_ENTITIES: Regex = Regex::new(r#"&([a-zA-Z0-9]+?);"#).unwrap();
     }
@@ -136,7 +138,7 @@ pub fn set_mathml(mathml_str: String) -> Result<String> {
         // the speech rules use the xpath "name" function and that includes the prefix
         // getting rid of the prefix properly probably involves a recursive replacement in the tree
         // if the prefix is used, it is almost certainly something like "m" or "mml", so this cheat will work.
-        let mathml_str = NAMESPACE_DECL.replace(&mathml_str, "xmlns"); // do this before the PREFIX replace!
+        let mathml_str = NAMESPACE_DECL.replace(&mathml_str, "xmlns$1"); // do this before the PREFIX replace!
         let mathml_str = PREFIX.replace_all(&mathml_str, "$1");
 
         let new_package = parser::parse(&mathml_str);
